@@ -377,34 +377,6 @@ static inline void verif_lock_guard_dtor(std_lock_guard_std_mutex *g) { g->m->g_
                     pass
                 return X("comma", X("incdec", "++", False, X("var", "verif_atomic_ops")), r0, ty=r0.ty)
             return self.atomic_op(m, v, VT, nonmo, args)
-
-    def atomic_op(self, m, v, VT, nonmo, args):
-        tr = self.tr
-        if True:
-            if m in ("load", "operator " + VT.name, "operator long long", "operator unsigned long", "operator bool", "operator int", "operator long") or m.startswith("operator ") and not nonmo and m not in ("operator++", "operator--"):
-                return v
-            if m in ("store",):
-                return X("assign", "=", v, tr.rv(nonmo[0]), ty=VT)
-            if m == "operator=":
-                return X("assign", "=", v, tr.rv(nonmo[0]), ty=VT)
-            if m == "operator++":
-                return X("incdec", "++", not nonmo, v, ty=VT) if not nonmo else X("incdec", "++", False, v, ty=VT)
-            if m == "operator--":
-                return X("incdec", "--", not nonmo, v, ty=VT) if not nonmo else X("incdec", "--", False, v, ty=VT)
-            if m == "fetch_add":
-                t = tr.newtmp(VT)
-                return X("comma", X("comma", X("assign", "=", t, v), X("assign", "+=", v, tr.rv(nonmo[0]))), t, ty=VT)
-            if m == "fetch_sub":
-                t = tr.newtmp(VT)
-                return X("comma", X("comma", X("assign", "=", t, v), X("assign", "-=", v, tr.rv(nonmo[0]))), t, ty=VT)
-            if m == "operator+=":
-                return X("assign", "+=", v, tr.rv(nonmo[0]), ty=VT)
-            if m == "operator-=":
-                return X("assign", "-=", v, tr.rv(nonmo[0]), ty=VT)
-            if m == "exchange":
-                t = tr.newtmp(VT)
-                return X("comma", X("comma", X("assign", "=", t, v), X("assign", "=", v, tr.rv(nonmo[0]))), t, ty=VT)
-            raise ExtractionBreak("std::atomic member '%s' has no model" % m)
         # ---- iterator operators (iterators are pointers)
         if q.startswith("__gnu_cxx::operator") or q.startswith("__gnu_cxx::__normal_iterator<"):
             m = q.split("::")[-1]
@@ -433,6 +405,11 @@ static inline void verif_lock_guard_dtor(std_lock_guard_std_mutex *g) { g->m->g_
             raise ExtractionBreak("iterator operation '%s' has no model" % q)
         # ---- memory / C strings
         base = q[5:] if q.startswith("std::") else q
+        if base == "distance" and len(args) == 2:
+            pt = parse_type(ps[0])
+            if pt.kind == "ptr":
+                tr.rule("std::distance on pointers")
+                return X("bin", "-", tr.rv(args[1]), tr.rv(args[0]), ty=parse_type("long"))
         if base == "memcpy":
             tr.rule("memcpy model")
             self.contracts["verif_memcpy"] = ("void *verif_memcpy(void *dst, const void *src, unsigned long n)\n"
@@ -449,6 +426,35 @@ static inline void verif_lock_guard_dtor(std_lock_guard_std_mutex *g) { g->m->g_
             self.use_contract("verif_strlen")
             return X("call", "verif_strlen", [tr.rv(args[0])], ty=parse_type("unsigned long"))
         return None
+
+
+    def atomic_op(self, m, v, VT, nonmo, args):
+        tr = self.tr
+        if True:
+            if m in ("load", "operator " + VT.name, "operator long long", "operator unsigned long", "operator bool", "operator int", "operator long") or m.startswith("operator ") and not nonmo and m not in ("operator++", "operator--"):
+                return v
+            if m in ("store",):
+                return X("assign", "=", v, tr.rv(nonmo[0]), ty=VT)
+            if m == "operator=":
+                return X("assign", "=", v, tr.rv(nonmo[0]), ty=VT)
+            if m == "operator++":
+                return X("incdec", "++", not nonmo, v, ty=VT) if not nonmo else X("incdec", "++", False, v, ty=VT)
+            if m == "operator--":
+                return X("incdec", "--", not nonmo, v, ty=VT) if not nonmo else X("incdec", "--", False, v, ty=VT)
+            if m == "fetch_add":
+                t = tr.newtmp(VT)
+                return X("comma", X("comma", X("assign", "=", t, v), X("assign", "+=", v, tr.rv(nonmo[0]))), t, ty=VT)
+            if m == "fetch_sub":
+                t = tr.newtmp(VT)
+                return X("comma", X("comma", X("assign", "=", t, v), X("assign", "-=", v, tr.rv(nonmo[0]))), t, ty=VT)
+            if m == "operator+=":
+                return X("assign", "+=", v, tr.rv(nonmo[0]), ty=VT)
+            if m == "operator-=":
+                return X("assign", "-=", v, tr.rv(nonmo[0]), ty=VT)
+            if m == "exchange":
+                t = tr.newtmp(VT)
+                return X("comma", X("comma", X("assign", "=", t, v), X("assign", "=", v, tr.rv(nonmo[0]))), t, ty=VT)
+            raise ExtractionBreak("std::atomic member '%s' has no model" % m)
 
     def find_ctor(self, T, nargs, argtys):
         tr = self.tr
